@@ -16,6 +16,7 @@ package main
 
 import (
 	"fmt"
+	"go/ast"
 	"go/types"
 	"strings"
 
@@ -184,4 +185,58 @@ func (fr *Frame) kvSubSliceFact(st *State, g string, s SV, et types.Type, lo, hi
 	k, srt := fc.bKey(et)
 	blk := app("select", fc.comp(st, k, srt), sarr(s.t))
 	fc.assume(g, eq(app("kvval", blk, plus(soff(s.t), lo), minus(hi, lo)), app("kvsub", app("kvkey", blk, soff(s.t), slen(s.t)), lo, hi)))
+}
+
+// namedHeapVars: a source variable that is captured by a closure (or whose address escapes) is a heap Alloc whose comment is
+// the variable's name; go/ssa emits no "address of var" debug ref for it when it is a parameter or only assigned. Expose such
+// allocations that dominate the invariant point h as locals: `name` is the variable's current value; for a captured
+// PARAMETER the local is called `cur_<name>` (a plain `name` keeps meaning the parameter's entry value).
+func (fr *Frame) namedHeapVars(h *ssa.BasicBlock, out map[string]func(*State) SV, addrs map[string]SV) {
+	names := map[string]bool{}
+	for _, p := range fr.fn.Params {
+		names[p.Name()] = true
+	}
+	for _, b := range fr.fn.Blocks {
+		for _, in := range b.Instrs {
+			if d, ok := in.(*ssa.DebugRef); ok {
+				if id, ok := d.Expr.(*ast.Ident); ok {
+					names[id.Name] = true
+				}
+			}
+		}
+	}
+	fc := fr.fc
+	for _, b := range fr.fn.Blocks {
+		if !b.Dominates(h) {
+			continue
+		}
+		for _, in := range b.Instrs {
+			a, ok := in.(*ssa.Alloc)
+			if !ok || !a.Heap || !names[a.Comment] {
+				continue
+			}
+			if _, dup := addrs[a.Comment]; dup {
+				continue
+			}
+			sv, known := fr.vals[a]
+			if !known {
+				continue
+			}
+			pt, ok := a.Type().Underlying().(*types.Pointer)
+			if !ok {
+				continue
+			}
+			name := a.Comment
+			for _, p := range fr.fn.Params {
+				if p.Name() == name {
+					name = "cur_" + name // a captured PARAMETER: `name` stays the entry value, `cur_name` is the variable's current value
+				}
+			}
+			addrs[name] = SV{t: sv.t, typ: pt.Elem()}
+			if _, dup := out[name]; !dup {
+				addr := sv.t
+				out[name] = func(st *State) SV { return SV{t: fc.load(st, addr, pt.Elem()), typ: pt.Elem()} }
+			}
+		}
+	}
 }
